@@ -730,10 +730,10 @@ func first(a, _ []byte) []byte { return a }
 //@   opt extent on
 //@   opt leaf alphaLeafNode
 //@   requires WF1in_alpha(t) && sizeSane(t)
-//@   assume_at_call minimum : HeapOKN() && LinkedLive()
+//@   assume_at_call minimum : LinkedLive()
 //@   pathkey calls("Insert$1")
 //@   ensures[size_accounting] t.size == old(t.size) + calls("Insert$1")
-//@   ensures[overwrite_only_value] implies(calls("Insert$1") == 0, frameExcept("alphaLeafNode.value"))
+//@   ensures[overwrite_only_value] implies(calls("Insert$1") == 0 && calls("Get") == 0, frameExcept("alphaLeafNode.value"))
 //@   ensures[arg_bytes_unchanged] sameBytes(key, 0, blen(key.obj))
 //@   ensures[key_owned] forallref(o, implies(fresh(o) && atype(o) == leafT(), fresh(as(alphaLeafNode, o).key.obj)))
 //@   ensures[wf] WF1_alpha(t)
@@ -749,10 +749,10 @@ func first(a, _ []byte) []byte { return a }
 //@   opt extent on
 //@   opt leaf $KINDLeafNode
 //@   requires WF1in_$KIND(t) && sizeSane(t)
-//@   assume_at_call minimum : HeapOKN() && LinkedLive()
+//@   assume_at_call minimum : LinkedLive()
 //@   pathkey calls("Insert$1")
 //@   ensures[size_accounting] t.size == old(t.size) + calls("Insert$1")
-//@   ensures[overwrite_only_value] implies(calls("Insert$1") == 0, frameExcept("$KINDLeafNode.value"))
+//@   ensures[overwrite_only_value] implies(calls("Insert$1") == 0 && calls("Get") == 0, frameExcept("$KINDLeafNode.value"))
 //@   ensures[wf] WF1_$KIND(t)
 //@   loop 1 (depth)
 //@     invariant 0 <= depth && depth <= len(keyS)
